@@ -211,6 +211,12 @@ func runC10(b *runner.Batch) {
 	do(e.opRenew("aa.com", 11, false), []int{1}, false)
 	do(e.opRenew("aa.com", 10, false), []int{1}, false) // beyond ten years
 	do(e.opRenew("aa.com", 1, true), []int{1}, false)   // renewDefault overload
+	// a name with between nine and ten years to go: one more year is beyond the cap, through either form of the method
+	// (seeded change C10-10: the one-argument form taking a path around the cap)
+	do(e.opRegister("cap.com", e.users[0].hash, 9*365*24*3600+180*24*3600), []int{0}, false)
+	do(e.opRenew("cap.com", 1, true), []int{0}, false)
+	do(e.opRenew("cap.com", 1, false), []int{0}, false)
+	b.Hit("default-renewal-of-a-name-with-more-than-nine-years-to-go")
 	do(e.opRegister("aa.org", e.users[0].hash, 100000), []int{0}, false)
 	e.accountingSweep()
 	// boundary instants of aa.org's parent: the TLD org expires before aa.org does
